@@ -377,6 +377,8 @@ def build(case, G):
         cons = [list(c) if node else [tuple(e) for e in c] for c in case["cons"]]
         kw["subset_constraints" if cyc else "subpath_constraints"] = cons
         kw["subset_constraints_coverage" if cyc else "subpath_constraints_coverage"] = case["cov"]
+    if (len(case["edges"]) + (case["k"] or 0) + len(case["tag"])) % 5:
+        kw["solver_options"] = {"threads": 1}         # tiny models: extra solver threads only burn CPU; every fifth case keeps the default
     kw["optimization_options"] = dict(case["opts"])      # always a fresh dict (the library keeps shared mutable defaults)
     if name in COVERS:
         kw["cover_type"] = "node" if node else "edge"
@@ -404,11 +406,11 @@ def solve(case):
         m = build(case, G)
     except ValueError as e:
         return G, None, False, None, "constructor rejected the input: %s" % (str(e)[:120],)
-    except Exception as e:               # crashes on construction are C19/C09 business; the model does not report solved
+    except (Exception, SystemExit) as e:               # crashes on construction are C19/C09 business; the model does not report solved
         return G, None, False, None, "constructor crashed: %s: %s" % (type(e).__name__, str(e)[:120])
     try:
         ok = m.solve()
-    except Exception as e:
+    except (Exception, SystemExit) as e:
         return G, m, False, None, "solve() raised %s: %s" % (type(e).__name__, str(e)[:120])
     try:
         solved = bool(ok) and bool(m.is_solved())
